@@ -84,21 +84,13 @@ Definition xpub_claim (m : mode) (x : xpub) (len : Z) : xpub * outcome Z :=
   if max_payload_length (xlog x) <? len then (x, Err TooLong)
   else xpub_try m x len (fun l => eta_claim m l (x_idx x) (x_tid x) (x_off x) len).
 
-(* the exclusive publication has no offer_bulk; the harness reaches the exclusive appender's vectored append
-   through the same skeleton an offer uses (message not longer than the MTU payload) *)
-Definition xpub_bulk (m : mode) (rv : Z -> Z -> Z) (x : xpub) (bufs : list (list Z)) : xpub * outcome Z :=
-  match sum_caps m bufs with
-  | Ok len =>
-      if max_payload_length (xlog x) <? len then (x, Err TooLong)
-      else xpub_try m x len (fun l => eta_append_unfragmented_bulk m rv l (x_idx x) (x_tid x) (x_off x) bufs len)
-  | _ => (x, Panic)
-  end.
-
+(* the exclusive publication has no offer_bulk: a Bulk operation in a history does nothing to it
+   (the exclusive appender's vectored append is exercised directly, see Model/PubCases.v) *)
 Definition xpub_step (m : mode) (rv : Z -> Z -> Z) (x : xpub) (o : op) : xpub * outcome Z :=
   match o with
   | Offer msg => xpub_offer m rv x msg
   | Claim len => xpub_claim m x len
-  | Bulk bufs => xpub_bulk m rv x bufs
+  | Bulk bufs => (x, Ok 0)
   | _ => let '(p, r) := env_step (x_pub x) o in (x_with_pub x p, r)
   end.
 
